@@ -1,4 +1,5 @@
 import SqlgrepModel.Lemmas.ClimbFinal
+import SqlgrepModel.Lemmas.ParseFuelStmt
 /-
 C13 — "Every expression means the same as its fully parenthesised form under the standard SQL precedence - cast and
 subscript and qualified names bind tightest, then unary minus, then * and /, then + and -, then comparisons with IS
@@ -135,6 +136,36 @@ theorem neg_after_operator (o : BOp) (l r : RExpr)
 theorem stops_of_plain_token {s : PSt} (h1 : s.cur.tok ≠ .lp) (h2 : ∀ o, s.cur.tok ≠ .op o)
     (h3 : lookupTok specTables.other s.cur.tok = none) : Stops specTables 0 s :=
   stops_plain h1 h2 h3
+
+/-! ### the fuel the code is modelled with is enough
+
+The theorems above hold "for every sufficiently large fuel". The executed model runs with a fuel that is linear in the
+number of tokens (`Drivers/ParseExpr.lean`: `8 n + 16`; `Parse.parseTokens`: `fuelBound`), and `Lemmas/ParseFuelStmt.lean`
+shows that `3 · (tokens remaining)` is always enough for the expression parser not to run out. Together with `fuel_mono`:
+the answer at the executed fuel IS the answer of the theorems. -/
+
+/-- at every fuel of at least three times the number of remaining tokens the answer is the one the theorems speak about -/
+theorem answer_at_linear_fuel (T : PrecTables) (s : PSt) (t : PExpr) (rest : PSt)
+    (h : ∃ f0, ∀ f, f0 ≤ f → parseExpr T f s = .ok t rest) (f : Nat) (hf : 3 * s.remaining ≤ f) :
+    parseExpr T f s = .ok t rest := by
+  obtain ⟨f0, h0⟩ := h
+  have hne : parseExpr T f s ≠ .fuel := (parseExpr_adv T f s hf).1
+  have := fuel_mono_expr T (Nat.le_max_left f f0) rfl hne
+  rw [h0 (max f f0) (Nat.le_max_right f f0)] at this
+  exact this.symm
+
+/-- **parse_minimal_parens at the executed fuel** -/
+theorem parse_minimal_parens_linear_fuel (e : RExpr) (hwf : RExpr.WF specTables e) (rest : PSt)
+    (hloc : rest.cur.loc = default) (hS : Stops specTables 0 rest) (f : Nat)
+    (h1 : 3 * (pushAll (RExpr.minimal e) rest).remaining ≤ f) (h2 : 3 * (pushAll (RExpr.full e) rest).remaining ≤ f) :
+    parseExpr Generated.precTables f (pushAll (RExpr.minimal e) rest) = .ok e.embed rest ∧
+    parseExpr Generated.precTables f (pushAll (RExpr.full e) rest) = .ok e.embed rest := by
+  obtain ⟨f0, h0⟩ := parse_minimal_parens e hwf rest hloc hS
+  exact ⟨answer_at_linear_fuel _ _ _ _ ⟨f0, fun g hg => (h0 g hg).1⟩ f h1,
+         answer_at_linear_fuel _ _ _ _ ⟨f0, fun g hg => (h0 g hg).2⟩ f h2⟩
+
+/-- the driver's fuel `8 n + 16` for a vector of `n` tokens is such a fuel -/
+theorem driver_fuel_is_enough (s : PSt) : 3 * s.remaining ≤ 8 * s.remaining + 16 := by omega
 
 /-! ### the instances named in the sentence -/
 
